@@ -138,7 +138,7 @@ struct { unsigned int impl_n, counter; const unsigned char *msg32, *key32, *algo
 #define g_st_n g_nf.st_n      /* user-callback stub (harness/C01/nonce_stub.c): calls, last return value */
 #define g_st_ret g_nf.st_ret
 #ifdef NONCE_FN_EXPECT
-const secp256k1_hash_ctx *g_nfx_hctx; const unsigned char *g_nfx_msg32, *g_nfx_key32; const void *g_nfx_data;
+const unsigned char *g_nfx_msg32, *g_nfx_key32; const void *g_nfx_data;
 #endif
 #define NONCE_FN_GHOST verif_nonce_calls, g_nf
 static int nonce_function_rfc6979_impl(const secp256k1_hash_ctx *hash_ctx, unsigned char *nonce32, const unsigned char *msg32, const unsigned char *key32, const unsigned char *algo16, void *data, unsigned int counter)
@@ -148,7 +148,7 @@ __CPROVER_requires((algo16 == NULL || __CPROVER_r_ok(algo16, 16)) && (data == NU
 /* Call shape expected by the harness, stated as a PRECONDITION (an obligation at every call site, not an assumption): used where the
  * calls sit in a loop whose loop contract forgets ghost logs at the loop exit (secp256k1_ecdsa_anti_exfil_signer_commit).
  * g_nfx_* are set by the harness and never assigned by code or contracts. */
-__CPROVER_requires(hash_ctx == g_nfx_hctx && msg32 == g_nfx_msg32 && key32 == g_nfx_key32 && algo16 == NULL && data == g_nfx_data && counter == verif_nonce_calls)
+__CPROVER_requires(msg32 == g_nfx_msg32 && key32 == g_nfx_key32 && algo16 == NULL && data == g_nfx_data && counter == verif_nonce_calls)   /* which hash context is used is not part of the property */
 #endif
 __CPROVER_assigns(__CPROVER_object_upto(nonce32, 32), verif_nonce_calls, g_nf)
 __CPROVER_ensures(g_st_n == __CPROVER_old(g_st_n) && g_st_ret == __CPROVER_old(g_st_ret))
@@ -166,21 +166,25 @@ size_t g_ki;
 unsigned int verif_rfc6979_generate_calls;   /* named by the loop invariant of the counter loop (unit table: RFC_LOOP) */
 int g_ri_n, g_rf_n; unsigned int g_rf_gen_before; size_t g_ri_keylen; unsigned char g_ri_byte; const unsigned char *g_ri_key; const secp256k1_hash_ctx *g_ri_hctx; const secp256k1_rfc6979_hmac_sha256 *g_ri_rng;
 unsigned int g_ri_gen_before;
-const unsigned char *g_rg_expect_out; const secp256k1_rfc6979_hmac_sha256 *g_rf_rng;   /* g_rg_expect_out: set by the harness, never assigned by code or contracts */
+const secp256k1_rfc6979_hmac_sha256 *g_rf_rng;
+struct { size_t len; uint64_t out_id; unsigned char out_byte; } g_rg;   /* LAST generate call: length, identity of the output buffer (object<<52 | offset), output byte at ghost index g_nk2 */
+size_t g_nk2;   /* ghost byte index into the generated output, never assigned */
 static void secp256k1_rfc6979_hmac_sha256_initialize(const secp256k1_hash_ctx *hash_ctx, secp256k1_rfc6979_hmac_sha256 *rng, const unsigned char *key, size_t keylen)
 __CPROVER_requires(hash_ctx != NULL && __CPROVER_w_ok(rng, sizeof(*rng)) && __CPROVER_r_ok(key, keylen))
 __CPROVER_assigns(*rng, g_ri_n, g_ri_keylen, g_ri_byte, g_ri_key, g_ri_hctx, g_ri_rng, g_ri_gen_before)
 __CPROVER_ensures(g_ri_n == __CPROVER_old(g_ri_n) + 1 && g_ri_keylen == keylen && g_ri_key == key && g_ri_hctx == hash_ctx && g_ri_rng == rng && g_ri_gen_before == verif_rfc6979_generate_calls)
 __CPROVER_ensures(g_ki < keylen ==> g_ri_byte == key[g_ki])
 ;
-/* The generate calls sit in a for-loop closed by a loop contract, which forgets ghost logs at the loop exit.  The call shape the
- * harness expects is therefore stated as a PRECONDITION of this contract: it is an obligation at every call site (proved for an
- * arbitrary iteration), not an assumption. */
+/* The generate calls sit in a for-loop closed by a loop contract, which forgets ghost logs at the loop exit.  What every call must satisfy
+ * (it uses the DRBG that was initialised, after initialize and before finalize) is therefore a PRECONDITION of this contract: an obligation at
+ * every call site, not an assumption.  Which hash context is passed and where intermediate outputs go is not constrained; the LAST call is
+ * logged and tied to nonce32 by the loop invariant (unit table: RFC_LOOP). */
 static void secp256k1_rfc6979_hmac_sha256_generate(const secp256k1_hash_ctx *hash_ctx, secp256k1_rfc6979_hmac_sha256 *rng, unsigned char *out, size_t outlen)
 __CPROVER_requires(hash_ctx != NULL && __CPROVER_rw_ok(rng, sizeof(*rng)) && __CPROVER_w_ok(out, outlen))
-__CPROVER_requires(out == g_rg_expect_out && outlen == 32 && rng == g_ri_rng && hash_ctx == g_ri_hctx && g_ri_n == 1 && g_rf_n == 0)
-__CPROVER_assigns(*rng, __CPROVER_object_upto(out, outlen), verif_rfc6979_generate_calls)
+__CPROVER_requires(rng == g_ri_rng && g_ri_n == 1 && g_rf_n == 0)
+__CPROVER_assigns(*rng, __CPROVER_object_upto(out, outlen), verif_rfc6979_generate_calls, g_rg)
 __CPROVER_ensures(verif_rfc6979_generate_calls == __CPROVER_old(verif_rfc6979_generate_calls) + 1)
+__CPROVER_ensures(g_rg.len == outlen && g_rg.out_id == (((uint64_t)__CPROVER_POINTER_OBJECT(out) << 52) | (uint64_t)__CPROVER_POINTER_OFFSET(out)) && (g_nk2 < outlen ==> g_rg.out_byte == out[g_nk2]))
 ;
 static void secp256k1_rfc6979_hmac_sha256_finalize(secp256k1_rfc6979_hmac_sha256 *rng)
 __CPROVER_requires(__CPROVER_rw_ok(rng, sizeof(*rng)))
@@ -196,7 +200,8 @@ static int secp256k1_ge_set_xo_var(secp256k1_ge *r, const secp256k1_fe *x, int o
 __CPROVER_requires(__CPROVER_w_ok(r, sizeof(*r)) && __CPROVER_r_ok(x, sizeof(*x)) && fe_mag(x, 4))
 __CPROVER_assigns(*r, g_xo_n, g_xo_odd0, g_xo_v0, g_xo_x0, g_xo_r0)
 __CPROVER_ensures(__CPROVER_return_value == 0 || __CPROVER_return_value == 1)
-__CPROVER_ensures(ge_ok1(r) && r->infinity == 0)
+/* what the real body leaves behind: r->x is a copy of *x (magnitude unchanged), y is a normalised root possibly negated once (magnitude <= 2) */
+__CPROVER_ensures(FE_EQ_OLD(r->x, *x) && fe_mag(&r->y, 2) && r->infinity == 0)
 __CPROVER_ensures(g_xo_n == __CPROVER_old(g_xo_n) + 1)
 __CPROVER_ensures(__CPROVER_old(g_xo_n) == 0 ==> (g_xo_odd0 == odd && g_xo_v0 == __CPROVER_return_value && FE_EQ(g_xo_x0, *x) && GE_EQ(g_xo_r0, r)))
 __CPROVER_ensures(__CPROVER_old(g_xo_n) != 0 ==> (g_xo_odd0 == __CPROVER_old(g_xo_odd0) && g_xo_v0 == __CPROVER_old(g_xo_v0) && FE_KEEP(g_xo_x0) && GE_KEEP(g_xo_r0)))
